@@ -9,7 +9,8 @@ CONSTANTS
   BatchSizes = {1}
   PerIns = 0
   PerFl = 0
-  LockScope = "code"
+  LockScope = "fix"
+  SigMode = "none"
   Impl = FALSE
 INVARIANT ModelInv
 CONSTRAINT Mark
